@@ -3,11 +3,13 @@ package verifharness
 import (
 	"encoding/json"
 	"fmt"
+	"net"
 	"strings"
 	"testing"
 	"time"
 
 	"github.com/mimecast/dtail/internal/config"
+	"github.com/mimecast/dtail/internal/io/dlog"
 	"github.com/mimecast/dtail/internal/verifsim"
 	"github.com/mimecast/dtail/internal/verifsimnet"
 
@@ -33,7 +35,7 @@ type C14Scenario struct {
 }
 
 var c14Kinds = []string{"shell", "shell", "shell", "health", "badkey", "badpw", "nochannel", "noshell", "twoshells", "twochannels",
-	"unknownreq", "resetkex", "resetauth", "resetmid", "bgschedule", "bgcontinuous", "directtcpip", "ptyreq", "reqburst", "shellreqs"}
+	"unknownreq", "resetkex", "resetauth", "resetmid", "bgschedule", "bgcontinuous", "directtcpip", "ptyreq", "reqburst", "shellreqs", "reuseport"}
 
 func c14Gen(r *Rand, tier string, i int) Scenario {
 	sc := &C14Scenario{}
@@ -96,7 +98,7 @@ func c14Run(t *testing.T, s Scenario, src verifsim.DecisionSource, keep bool) *R
 			if srv == nil || srv.Srv == nil || stepCtr%7 != 0 {
 				return ""
 			}
-			if c := srv.Srv.VerifCurrentConnections(); c < 0 {
+			if c := c14Reported(); c < 0 {
 				fail("counter-negative", fmt.Sprintf("the server reports %d open connections", c))
 				return violation
 			}
@@ -166,6 +168,22 @@ func c14Run(t *testing.T, s Scenario, src verifsim.DecisionSource, keep bool) *R
 				conn.Reset()
 				return
 			}
+			if op.Kind == "reuseport" {
+				// a client whose connection is reset and which connects again at once
+				// from the same source port; the connection that counts is the second
+				if rs0 := w.RawDial("reuseport-first", "srv1", simUser, good, 5*time.Second); rs0.DialErr == nil {
+					if rs0.Shell() == nil {
+						rs0.Command(catCmd)
+					}
+					w.Sleep(time.Duration(op.HoldMs%3) * time.Millisecond)
+					port := 0
+					if a, ok := rs0.Conn.LocalAddr().(*net.TCPAddr); ok {
+						port = a.Port
+					}
+					rs0.Conn.Reset()
+					w.Net.NextLocalPort = port
+				}
+			}
 			var rs *RawSession
 			if op.Kind == "health" {
 				rs = w.RawDial("health", "srv1", config.HealthUser, []gossh.AuthMethod{gossh.Password(config.HealthUser)}, 5*time.Second)
@@ -217,7 +235,7 @@ func c14Run(t *testing.T, s Scenario, src verifsim.DecisionSource, keep bool) *R
 					sess.Setenv("LANG", "C")
 					sess.RequestPty("xterm", 24, 80, gossh.TerminalModes{})
 				}
-			case "shell", "health", "resetmid", "bgschedule", "bgcontinuous":
+			case "shell", "health", "resetmid", "bgschedule", "bgcontinuous", "reuseport":
 				if err := rs.Shell(); err != nil {
 					st.note = "shell: " + err.Error()
 					break
@@ -335,7 +353,7 @@ func c14Run(t *testing.T, s Scenario, src verifsim.DecisionSource, keep bool) *R
 				}
 			}
 			open := serverOpen()
-			counter := srv.Srv.VerifCurrentConnections()
+			counter := c14Reported()
 			res.Info[fmt.Sprintf("phase%d", pi)] = fmt.Sprintf("held=%d open=%d counter=%d", held, open, counter)
 			if held > sc.MaxConns {
 				probes["burst-over-limit"]++
@@ -368,7 +386,7 @@ func c14Run(t *testing.T, s Scenario, src verifsim.DecisionSource, keep bool) *R
 						held2++
 					}
 				}
-				if c := srv.Srv.VerifCurrentConnections(); c != held2 {
+				if c := c14Reported(); c != held2 {
 					fail("counter-differs", fmt.Sprintf("phase %d (connections open for more than 10 s): the server reports %d open connections, %d are actually open", pi, c, held2))
 				}
 			}
@@ -379,7 +397,7 @@ func c14Run(t *testing.T, s Scenario, src verifsim.DecisionSource, keep bool) *R
 			// check B: all ended, everything settled
 			w.Sleep(6 * time.Second)
 			open = serverOpen()
-			counter = srv.Srv.VerifCurrentConnections()
+			counter = c14Reported()
 			if open != 0 {
 				fail("connection-not-closed", fmt.Sprintf("phase %d: all clients are gone but the server still holds %d connections open", pi, open))
 			}
@@ -488,7 +506,7 @@ func init() {
 			"at every 7th step; non-trivial = at least two attempts; distinct = (history, schedule hash)",
 		Real:        []string{"internal/server (listenerLoop, handleConnection, handleChannel, handleRequests, stats)", "internal/server/handlers", "x/crypto/ssh server side over simnet"},
 		Stub:        []string{"clients are harness-driven x/crypto/ssh connections (needed to produce malformed and abrupt behaviours)", "TCP replaced by simnet"},
-		Assumptions: []string{"the server's own count is read through an overlay accessor on stats.currentConnections (same number as in its STATS log line)"},
+		Assumptions: []string{"the server's own count is the currentConnections value of the last STATS record it logged (written at every change and every 10 s), captured by the simulated dserver's logger"},
 		New:         func() Scenario { return &C14Scenario{} },
 		Gen:         c14Gen,
 		Run:         c14Run,
@@ -501,3 +519,9 @@ func init() {
 
 // PickStr picks names[i mod len].
 func PickStr(i int, names ...string) string { return names[i%len(names)] }
+
+// c14Reported is the number of open connections the server reported last.
+func c14Reported() int {
+	n, _ := dlog.VerifReportedConnections()
+	return n
+}
